@@ -20,7 +20,9 @@ def isFree (bm : Bitmap) (f : Nat) : Prop := ∃ p ∈ bm.pools, p.freeAt f = tr
 
 def ranges (ps : List Pool) : List (Nat × Nat) := ps.map fun p => (p.start, p.end_)
 
-def RangesSorted (rs : List (Nat × Nat)) : Prop := rs.Pairwise fun a b => a.2 < b.1
+/-- the pools' frame ranges are pairwise disjoint, in whatever order the memory map listed them
+(the name is historical: an ascending list is the special case `Or.inl`) -/
+def RangesSorted (rs : List (Nat × Nat)) : Prop := rs.Pairwise fun a b => a.2 < b.1 ∨ b.2 < a.1
 
 def freeSum (ps : List Pool) : Nat := (ps.map (·.freeCount)).sum
 
@@ -69,7 +71,7 @@ theorem ranges_set (ps : List Pool) (i : Nat) (p p' : Pool) (h : ps[i]? = some p
     · rw [List.getElem?_eq_none (by omega)] at h; cases h
   · rw [List.getElem?_set_ne (by omega)]
 
-/-- in a sorted pool list a frame lies in at most one pool -/
+/-- in a pool list with pairwise disjoint ranges a frame lies in at most one pool -/
 theorem sorted_unique {ps : List Pool} (hs : RangesSorted (ranges ps)) {i j : Nat} {p q : Pool}
     (hi : ps[i]? = some p) (hj : ps[j]? = some q) (f : Nat)
     (hp : p.start ≤ f ∧ f ≤ p.end_) (hq : q.start ≤ f ∧ f ≤ q.end_) : i = j := by
